@@ -522,6 +522,14 @@ fn addr_case(i: Impl, a: &Addr, fill: u8, extra: &[u32], mut tags: Vec<String>) 
             f.push(format!("{} read back with the length without NUL {} is {}", show(&Some(a.clone())), klen - 1, show(&got)), None);
         }
     }
+    if let Addr::Unnamed = a {
+        // recvmsg reports msg_namelen = 0 for a sender that is not bound (nothing is written).
+        let got = back(0);
+        enc_addr(&mut obs, &got);
+        if got.as_ref() != Some(a) {
+            f.push(format!("the unnamed address read back with length 0 (what recvmsg reports for a sender that is not bound) is {}", show(&got)), None);
+        }
+    }
     for len in extra {
         enc_addr(&mut obs, &back(*len));
     }
